@@ -2,9 +2,12 @@ package dbp
 
 import (
 	"bytes"
+	"context"
 	"encoding/json"
 	"errors"
 	"fmt"
+	"io"
+	"net/http"
 	"os"
 	"path/filepath"
 	"sort"
@@ -14,6 +17,8 @@ import (
 
 	"github.com/tailscale/setec/audit"
 	"github.com/tailscale/setec/db"
+	"github.com/tailscale/setec/server"
+	"tailscale.com/client/tailscale/apitype"
 	"github.com/tink-crypto/tink-go/v2/aead"
 	"github.com/tink-crypto/tink-go/v2/insecurecleartextkeyset"
 	"github.com/tink-crypto/tink-go/v2/keyset"
@@ -105,6 +110,24 @@ type RestartCase struct {
 	FailAudit []int `json:"fail_audit,omitempty"`
 }
 
+// downKEK is a key service that cannot be reached.
+type downKEK struct{}
+
+func (downKEK) Encrypt(pt, ad []byte) ([]byte, error) { return nil, errors.New("injected: key service unavailable") }
+func (downKEK) Decrypt(ct, ad []byte) ([]byte, error) { return nil, errors.New("injected: key service unavailable") }
+
+// lsState lists a state directory: names, sizes and modes.
+func lsState(dir string) string {
+	es, _ := os.ReadDir(dir)
+	var sb strings.Builder
+	for _, e := range es {
+		if fi, err := e.Info(); err == nil {
+			fmt.Fprintf(&sb, "%s(%d,%v) ", e.Name(), fi.Size(), fi.Mode())
+		}
+	}
+	return sb.String()
+}
+
 // flakyAudit is an audit device that can be made to fail.
 type flakyAudit struct{ fail bool }
 
@@ -138,6 +161,28 @@ func checkRestart(dir, path string, key tink.AEAD, tr *dbx.Tracker, step int, op
 	before, err := statFile(path)
 	if err != nil {
 		return h.V("harness", "stat: %v", err)
+	}
+	if (step+len(before.data))%3 == 0 {
+		// Before the restart that works, two that do not: the key service is down when the server
+		// starts, and somebody starts it with the wrong key. Each must fail and leave the file - and
+		// the directory it lives in - exactly as they were ("opening never modifies the file").
+		ls0 := lsState(dir)
+		for _, attempt := range []string{"server start while the key service is down", "open with another key"} {
+			var ferr error
+			if attempt[0] == 's' {
+				_, ferr = server.New(context.Background(), server.Config{DBPath: path, Key: downKEK{}, AuditLog: audit.New(io.Discard), Mux: http.NewServeMux(),
+					WhoIs: func(context.Context, string) (*apitype.WhoIsResponse, error) { return dbx.WhoIsOf(dbx.Super()), nil }})
+			} else {
+				_, ferr = dbx.OpenDiscard(path, dbx.DummyKeyNamed("someone-elses-kek"))
+			}
+			if ferr == nil {
+				return h.V("harness", "after step %d %s: %s succeeded (C05 decides that)", step, op, attempt)
+			}
+			mid, err := statFile(path)
+			if err != nil || !before.same(mid) || lsState(dir) != ls0 {
+				return h.V("open-never-modifies", "after step %d %s: a failed start (%s: %v) changed the state directory: file same=%v err=%v; directory was [%s], is [%s]", step, op, attempt, ferr, err == nil && before.same(mid), err, ls0, lsState(dir))
+			}
+		}
 	}
 	d2, err := dbx.OpenDiscard(path, key)
 	if err != nil {
@@ -245,17 +290,20 @@ func runC03(t *testing.T, rc RestartCase) (*h.Violation, h.Info) {
 				failing = true
 			}
 		}
+		var early *dbx.Result
+		if failing {
+			var got dbx.Result
+			held, err := dbx.Outage(dir, func() { got = tgt.Do(su, op, ver) })
+			if err != nil {
+				return h.V("harness", "%v", err), info
+			}
+			early, failing = &got, held // (not held: the code put the directory back itself - an ordinary call)
+		}
 		if failing {
 			// the call's save fails (the directory is gone for its duration): the call must report
 			// an error, and it did not happen - not now, and not after a later save and a restart
-			away := dir + ".away"
-			if err := os.Rename(dir, away); err != nil {
-				return h.V("harness", "rename: %v", err), info
-			}
-			got := tgt.Do(su, op, ver)
-			if err := os.Rename(away, dir); err != nil {
-				return h.V("harness", "rename back: %v", err), info
-			}
+			got := *early
+			early = nil
 			info.Class("save-failed")
 			info.NonTrivial = true
 			if got.Class == model.OK {
@@ -274,7 +322,12 @@ func runC03(t *testing.T, rc RestartCase) (*h.Violation, h.Info) {
 			info.Class("identical-call-retried-after-failed-save")
 		}
 		want := tr.Expect(su.Rules, op, ver)
-		got := tgt.Do(su, op, ver)
+		var got dbx.Result
+		if early != nil {
+			got = *early
+		} else {
+			got = tgt.Do(su, op, ver)
+		}
 		if diff := dbx.Compare(got, want); diff != "" {
 			return h.V("result-equals-model", "step %d %s: %s", i, op, diff), info
 		}
